@@ -93,7 +93,7 @@ PROPS = {
                        "mock_name_twice", "method_name_clash", "unexported_foreign"]),
     "C10": dict(kind="gen", files=["P_C10.v", "P_C11.v", "Registry_Proofs.v", "P_C11_exact.v", "Imports_Proofs.v", "Printer_Proofs.v"], theorems=[thm("C10_skip_ensure_exact", "P_C11_exact"), thm("C10_types_qualified_through_their_import", "P_C11_exact"), thm("C10_infer", "P_C10"), thm("C10_same_no_self_import", "P_C10"), thm("C10_same_bare", "P_C10"), thm("C10_other_imports_source", "P_C10"), thm("C10_skip_qualifier", "P_C10"), thm("C10_explicit_same_refuted", "P_C10")], oracle=O.o_c10,
                 known=["explicit_same_pkg", "unexported_foreign"]),
-    "C11": dict(kind="gen", files=["P_C11.v", "Registry_Proofs.v", "P_C11_exact.v", "Imports_Proofs.v", "Printer_Proofs.v"], theorems=[thm("C11_exact", "P_C11_exact"), thm("C11_exact_no_missing", "P_C11_exact"), thm("C11_exact_nothing_else", "P_C11_exact"), thm("C11_printer_consults_mentions", "P_C11_exact"), thm("C11_walk_covers_printer", "P_C11_exact"), thm("C11_exact_premise_holds", "P_C11_exact"), thm("C11_once", "P_C11"), thm("C11_sorted", "P_C11"), thm("C11_never_imports_destination", "P_C11"), thm("C11_keep_alias", "P_C11"), thm("C11_no_dot_blank", "P_C11"), thm("C11_vendor_example", "P_C11"), thm("C11_sync_when_methods", "P_C11"), thm("C11_distinct_refuted", "P_C11"), thm("C11_identifier_refuted", "P_C11")], oracle=O.o_c11,
+    "C11": dict(kind="gen", files=["P_C11.v", "Registry_Proofs.v", "P_C11_distinct.v", "Distinct_Proofs.v", "P_C11_exact.v", "Imports_Proofs.v", "Printer_Proofs.v"], theorems=[thm("C11_exact", "P_C11_exact"), thm("C11_distinct_known", "P_C11_distinct"), thm("C11_distinct_no_conflict", "P_C11_distinct"), thm("C11_distinct_direct", "P_C11_distinct"), thm("C11_distinct_direct_example", "P_C11_distinct"), thm("C11_exact_no_missing", "P_C11_exact"), thm("C11_exact_nothing_else", "P_C11_exact"), thm("C11_printer_consults_mentions", "P_C11_exact"), thm("C11_walk_covers_printer", "P_C11_exact"), thm("C11_exact_premise_holds", "P_C11_exact"), thm("C11_once", "P_C11"), thm("C11_sorted", "P_C11"), thm("C11_never_imports_destination", "P_C11"), thm("C11_keep_alias", "P_C11"), thm("C11_no_dot_blank", "P_C11"), thm("C11_vendor_example", "P_C11"), thm("C11_sync_when_methods", "P_C11"), thm("C11_distinct_refuted", "P_C11"), thm("C11_identifier_refuted", "P_C11")], oracle=O.o_c11,
                 known=["alias_duplicate", "alias_not_identifier", "walk_incomplete", "explicit_same_pkg"]),
     "C12": dict(kind="gen", files=["P_C12.v", "P_C19.v", "P_C12_names.v", "Names_Proofs.v"], theorems=[thm("C12_type_derived_name_is_identifier", "P_C12_names"), thm("C12_var_name_is_identifier", "P_C12_names"), thm("C12_add_var_names_are_identifiers", "P_C12_names"), thm("C12_reserved_covers_keywords", "P_C12"), thm("C12_reserved_covers_basic_types", "P_C12"), thm("C12_suffix_escapes_table", "P_C12"), thm("C12_generated_not_reserved", "P_C12"), thm("C12_fresh", "P_C12"), thm("C12_numbering_keeps_distinct", "P_C12"), thm("C12_add_var_keeps_distinct", "P_C12"), thm("C12_number_two_fixed", "P_C12"), thm("C12_user_reserved_fixed", "P_C12"), thm("C12_user_reserved_refuted", "P_C12"), thm("C12_fields_refuted", "P_C12"), thm("C12_numbering_crash_fixed", "P_C12")], oracle=O.o_c12,
                 known=["names_distinct", "fields_distinct", "names_body_idents", "names_keywords",
@@ -355,6 +355,10 @@ def run(ctx):
             ctx.l1 = dict(histories=l1["n"], evaluated_in_coq=l1["evaluated"], verdicts=l1["verdicts"],
                           variables=l1["stats"].get("vars", 0), imports=l1["stats"].get("imports", 0),
                           scopes=l1["stats"].get("scopes", 0), seconds=l1["seconds"],
+                          add_import_by_resolution=l1.get("add_import_classes"),
+                          add_import_note="how the model resolves each AddImport of the histories: C11_distinct_known / "
+                                          "_no_conflict / _direct cover the first three classes (qualifiers stay distinct); "
+                                          "'other' is where D13 and the divergence family live",
                           generator="harness/cmd/vh/l1.go (l1Generate): seeded; 2-8 synthetic packages per history with "
                                     "adversarial paths and names, 1-3 scopes of 1-5 variables over every type "
                                     "constructor, colliding declared names, interleaved AddImport, three source "
